@@ -16,7 +16,13 @@
    Ok).  `run_resume` therefore runs the model loop (MC.mc_loop) up to such a pass, requires the observation "measure
    nan, rejected" for it, and resumes the model loop from the same held state with counter + 1 behind the draws of
    that pass (type, proposal, uniform).  A nan trial that is accepted, or judged without a uniform draw, is a
-   disagreement. *)
+   disagreement.
+
+   A pass that is NOT in the model's trace.  When the model finds a proposal worse than the configuration held by an
+   ulp while the implementation found it equal (and drew no uniform number), the model asks the recorded stream for a
+   DRand that is not there and stops with Err EStop BEFORE the pass enters its trace.  `stopped_pass_undecided`
+   re-evaluates that pass from the stop point and applies the same margins to it (false alarm of soak seed 32: a
+   rotation that leaves the measure unchanged up to one ulp, 2.0259167906114097 vs 2.0259167906114093). *)
 From Coq Require Import Bool String.
 From GM Require Import Corr.CorrBase Corr.CheckC07 Corr.CheckC08 Model.Aux Model.Transform Model.Chi2 Model.MC Model.Restraints Model.Align.
 Open Scope bool_scope.
@@ -129,23 +135,58 @@ Definition consumed (tr : list frec) : nat :=
 Definition last_state (st : fstate) (tr : list frec) : fstate := fold_left (fun _ r => sr_after r) tr st.
 
 (* the model loop, resumed behind every pass whose proposal is Err EDiv0 (None in the result = such a pass) *)
+(* where a run of the model loop stopped: the state held and the draws not yet consumed *)
+Record stop_point := SP { sp_state : fstate; sp_rest : stream float (pdraw float (adraw float)) }.
+
 Fixpoint run_resume (scos ssin : float -> float) (oc : opt_call float) (rounds : nat) (st : fstate)
-    (s : stream float (pdraw float (adraw float))) (fuel : nat) : list (option frec) * res (list (V3 float)) :=
+    (s : stream float (pdraw float (adraw float))) (fuel : nat)
+  : list (option frec) * res (list (V3 float)) * stop_point :=
   let a := oc_args oc in
   let (tr, out) := mc_loop (list (V3 float)) (pdraw float (adraw float)) (chi2_tot (oc_calc oc))
                            (propose scos ssin (oc_calc oc) (ma_table a) (ma_sigma a)) (oc_sim oc) (ma_steps a)
                            fuel st s in
+  let st1 := last_state st tr in
+  let s1 := skipn (consumed tr) s in
   match out, rounds with
   | Err EDiv0, S rounds' =>
-      let st1 := last_state st tr in
-      match skipn (consumed tr) s with
+      match s1 with
       | DChoice _ :: DProp _ :: DRand _ :: s2 =>
           let st2 := mkState (held st1) (e_held st1) (e_min st1) (S (counter st1)) in
-          let (tr2, out2) := run_resume scos ssin oc rounds' st2 s2 (fuel - length tr - 1) in
-          (map Some tr ++ None :: tr2, out2)
-      | _ => (map Some tr, Err EStop)
+          let '(tr2, out2, sp) := run_resume scos ssin oc rounds' st2 s2 (fuel - length tr - 1) in
+          (map Some tr ++ None :: tr2, out2, sp)
+      | _ => (map Some tr, Err EStop, SP st1 s1)
       end
-  | _, _ => (map Some tr, out)
+  | _, _ => (map Some tr, out, SP st1 s1)
+  end.
+
+(* The run of the model stopped with Err EStop: the next draw of the recorded stream is not the one the model asks
+   for.  One cause is legitimate: in the pass that was being executed the model finds the proposal WORSE than the
+   configuration held (and asks for the uniform draw) while the implementation found it equal or lower and drew
+   nothing - that pass is not in the trace, so its margins are examined here: true = the comparison
+   energy_1 <= energy_0 of that pass (or an arg-min / the conditioning of its single-atom move) is undecided. *)
+Definition stopped_pass_undecided (scos ssin : float -> float) (oc : opt_call float) (sp : stop_point)
+    (o : option ostep) : bool :=
+  let a := oc_args oc in
+  let st := sp_state sp in
+  match sp_rest sp with
+  | DChoice i :: DProp p :: _ =>
+      match nth_res (oc_sim oc) i with
+      | Ok kind =>
+          match propose scos ssin (oc_calc oc) (ma_table a) (ma_sigma a) kind p (held st) with
+          | Ok test =>
+              let e1 := chi2_tot (oc_calc oc) test in
+              let cond := match p with PAtom a0 => atom_pass_ok (ma_table a) (ma_sigma a) (held st) a0 | _ => true end in
+              negb (rows_decided (oc_calc oc) test && decided e1 (e_held st) && cond)
+          | Err EDiv0 =>
+              (* the model divides by an exact zero where the implementation evidently did not (its measure is finite,
+                 judged without a draw): the two sides stand on different sides of an exact zero; an observed nan
+                 measure judged without a draw is a disagreement *)
+              match o with Some ob => negb (f_isnan (os_e1 ob)) | None => false end
+          | Err _ => false
+          end
+      | Err _ => false
+      end
+  | _ => false
   end.
 
 Fixpoint props_of (s : stream float (pdraw float (adraw float))) : list (pdraw float (adraw float)) :=
@@ -204,12 +245,15 @@ Definition chk_align (sf : Z) (start end_ : amol float) (restr : option (list (Z
       else if negb (rows_decided (oc_calc oc) (ma_mobile a)) then INDET
       else
         let st0 := init_state (list (V3 float)) (chi2_tot (oc_calc oc)) (ma_mobile a) in
-        let (tr, out) := run_resume scos ssin oc (length steps) st0 s (length steps) in
-        match walk (oc_calc oc) (ma_table a) (ma_sigma a) tr (props_of s) steps with
+        let '(tr, out, sp) := run_resume scos ssin oc (length steps) st0 s (length steps) in
+        let stopped := match out with Err EStop => true | _ => false end in
+        let obs_steps := if stopped then firstn (length tr) steps else steps in
+        match walk (oc_calc oc) (ma_table a) (ma_sigma a) tr (props_of s) obs_steps with
         | WBad => DISAGREE
         | WIndet => INDET
         | WAgree =>
             match out with
+            | Err EStop => if stopped_pass_undecided scos ssin oc sp (nth_error steps (length tr)) then INDET else ERRMISMATCH
             | Err _ => ERRMISMATCH
             | Ok final =>
                 if swap then code (list_close tol_pos final os && names_ok start1 ns)
